@@ -301,3 +301,96 @@ def rule_AW1(ctx, rep, scope=None):
             else:
                 rep.ok('AW1', fn, c, f'{r} is awaited {"" if always else "under options.no_prss "}before its value is used')
     return n
+
+
+# ---------------------------------------------------------------------------------- WK1
+_WK1_WITNESS = '''
+def collect(executor, parts, out, W, n):
+    tasks = [executor.submit(work, parts[i]) for i in range(W)]
+    for i, task in enumerate(concurrent.futures.as_completed(tasks)):
+        out[i*n//W:(i+1)*n//W] = task.result()
+'''
+
+
+def _wk1_sites(fnode):
+    """[(for node, task names, order names)] for every loop over concurrent.futures.as_completed(..) in the function"""
+    out = []
+    for f in iter_nodes(fnode):
+        if not isinstance(f, (ast.For, ast.AsyncFor)):
+            continue
+        it = f.iter
+        if isinstance(it, ast.Call) and attr_tail(it.func) == 'as_completed':
+            out.append((f, {x.id for x in ast.walk(f.target) if isinstance(x, ast.Name)}, set()))
+            continue
+        if isinstance(it, ast.Call) and isinstance(it.func, ast.Name) and it.func.id in ('enumerate', 'zip') and \
+                any(isinstance(a, ast.Call) and attr_tail(a.func) == 'as_completed' for a in it.args):
+            elts = f.target.elts if isinstance(f.target, (ast.Tuple, ast.List)) else None
+            args = ([None] + list(it.args[:1])) if it.func.id == 'enumerate' else list(it.args)
+            if elts is None or len(elts) != len(args):
+                out.append((f, set(), {x.id for x in ast.walk(f.target) if isinstance(x, ast.Name)}))
+                continue
+            task, order = set(), set()
+            for e, a in zip(elts, args):
+                names = {x.id for x in ast.walk(e) if isinstance(x, ast.Name)}
+                if a is not None and isinstance(a, ast.Call) and attr_tail(a.func) == 'as_completed':
+                    task |= names
+                else:
+                    order |= names
+            out.append((f, task, order))
+    return out
+
+
+def _wk1_judge(fnode):
+    """[(store statement, verdict, text)] for the positional stores in loops over as_completed"""
+    res = []
+    for f, task, order in _wk1_sites(fnode):
+        body = [s for b in f.body for s in iter_nodes(b)]
+        tainted = set(task)
+        counters = {s.target.id for s in body if isinstance(s, ast.AugAssign) and isinstance(s.target, ast.Name)}
+        changed = True
+        while changed:          # names computed from the completed task (i = tasks[task]; lo, hi = bounds[task]; ..)
+            changed = False
+            for s in body:
+                if isinstance(s, ast.Assign) and any(isinstance(x, ast.Name) and x.id in tainted for x in ast.walk(s.value)):
+                    for t in s.targets:
+                        for x in ast.walk(t):
+                            if isinstance(x, ast.Name) and isinstance(x.ctx, ast.Store) and x.id not in tainted:
+                                tainted.add(x.id)
+                                changed = True
+        for s in body:
+            tgts = s.targets if isinstance(s, ast.Assign) else [s.target] if isinstance(s, ast.AugAssign) else []
+            for t in tgts:
+                if not isinstance(t, ast.Subscript):
+                    continue
+                idx = {x.id for x in ast.walk(t.slice) if isinstance(x, ast.Name)}
+                if idx & tainted:
+                    res.append((s, True, 'the position of each result is looked up from the completed task itself'))
+                elif idx & (order | counters):
+                    res.append((s, False, f'the position is computed from {sorted(idx & (order | counters))}, which counts completions, not submissions'))
+    return res
+
+
+def rule_WK1(ctx, rep):
+    """results of worker threads are placed by submission, not by completion: in a loop over `concurrent.futures.as_completed(..)` the
+    futures arrive in the order they finish, so every positional store of a result takes its position from the completed task (a
+    look-up keyed on the future), never from an enumeration index or a running counter of the loop.  Otherwise the chunks of an
+    array result are permuted whenever a later chunk finishes first -- a schedule of the thread pool no test controls."""
+    model = ctx.model
+    # the rule's expected count may legitimately become zero (executor.map keeps submission order): keep a positive example
+    wit = ast.parse(_WK1_WITNESS).body[0]
+    if [v for _s, v, _t in _wk1_judge(wit)] != [False]:
+        raise AnalysisError('WK1: the built-in witness (enumerate over as_completed used as position) is no longer reported')
+    n = 0
+    for k, fn in sorted(model.funcs.items()):
+        if not any(isinstance(c, ast.Call) and attr_tail(c.func) == 'as_completed' for c in iter_nodes(fn.node)):
+            continue
+        sites = _wk1_sites(fn.node)
+        if not sites:
+            raise AnalysisError(f'WK1: {fn.qualname} uses as_completed outside a for statement: not read by this rule')
+        for s, good, text in _wk1_judge(fn.node):
+            n += 1
+            if good:
+                rep.ok('WK1', fn, s, text)
+            else:
+                rep.bad('WK1', fn, s, f'{text}: when a later chunk finishes first the chunks of the result are exchanged')
+    return n
